@@ -560,6 +560,87 @@ async fn tls_case(bytes: &[u8]) -> Result<&'static str, (String, String)> {
     Ok(if sent < bytes.len() { "stopped-reading" } else { "read-all" })
 }
 
+
+// (d3) the peeking step alone, with the first flight arriving in two parts: what it holds afterwards
+// never exceeds the stated 16 KiB, wherever the first part ends
+const PREBUF_FIRST: [usize; 10] = [1, 5, 6, 1000, 1025, 5000, 8191, 15_500, 16_383, 16_384];
+const PREBUF_BOUND: usize = 16 * 1024;
+
+async fn tls_prebuffer_case(kind: usize, first: usize) -> Result<&'static str, (String, String)> {
+    let mach = |e: String| ("machinery".to_string(), e);
+    let bytes = tls_shape(kind, first + 20_000);
+    let listener = tokio::net::TcpListener::bind("127.0.0.1:0").await.map_err(|e| mach(e.to_string()))?;
+    let addr = listener.local_addr().unwrap();
+    let (sock, srv) = tokio::join!(tokio::net::TcpStream::connect(addr), listener.accept());
+    let mut sock = sock.map_err(|e| mach(e.to_string()))?;
+    let srv = srv.map_err(|e| mach(e.to_string()))?.0;
+    let _ = sock.set_linger(Some(Duration::ZERO));
+    let _ = sock.set_nodelay(true);
+    use tokio::io::AsyncWriteExt;
+    sock.write_all(&bytes[..first]).await.map_err(|e| mach(e.to_string()))?;
+    // the first part is in the listener's socket buffer before the peeking starts
+    tokio::time::sleep(Duration::from_millis(20)).await;
+    let mut server = tokio::spawn(async move { vh::tls_prebuffer(srv).await.map_err(|e| e.to_string()) });
+    // let it take the first part, then offer the rest at once
+    let mut ended = None;
+    let t0 = std::time::Instant::now();
+    while ended.is_none() && t0.elapsed() < Duration::from_millis(40) {
+        let mut f = Box::pin(&mut server);
+        ended = door::poll_once(&mut f).await;
+        tokio::time::sleep(Duration::from_millis(2)).await;
+    }
+    if ended.is_none() {
+        let _ = sock.write_all(&bytes[first..]).await;
+        let t0 = std::time::Instant::now();
+        while ended.is_none() && t0.elapsed() < Duration::from_secs(5) {
+            let mut f = Box::pin(&mut server);
+            ended = door::poll_once(&mut f).await;
+            tokio::time::sleep(Duration::from_millis(2)).await;
+        }
+    }
+    drop(sock);
+    match ended {
+        None => {
+            server.abort();
+            Err(("peeking-never-ends".into(), format!("the peeking step is still pending 5 s after {} bytes were offered", bytes.len())))
+        }
+        Some(Err(e)) if e.is_panic() => Err(("panic".into(), "the peeking step panicked".into())),
+        Some(Err(e)) => Err(mach(e.to_string())),
+        Some(Ok(Err(_io))) => Ok("io-error"),
+        Some(Ok(Ok((held, random)))) => {
+            if held > PREBUF_BOUND {
+                return Err(("prebuffer-beyond-bound".into(), format!("{held} bytes held after peeking (bound {PREBUF_BOUND}); the first part was {first} bytes, {} more were on offer", bytes.len() - first)));
+            }
+            if held > bytes.len() {
+                return Err(("prebuffer-more-than-sent".into(), format!("{held} bytes held, {} sent", bytes.len())));
+            }
+            Ok(if random.is_some() { "random-found" } else if held == PREBUF_BOUND { "stopped-at-bound" } else { "stopped-early" })
+        }
+    }
+}
+
+fn run_tls_prebuffer(kind: usize, first: usize) -> Result<Cow<'static, str>, Violation> {
+    let case = json!({"kind":"tls-prebuffer","shape":kind,"first":first});
+    let _g = watch::enter(format!("C09:tls-prebuffer:wedged:shape{kind}"), case.to_string());
+    let r = super::guarded(|| rt::run_real(async move { tls_prebuffer_case(kind, first).await }));
+    match r {
+        Err(p) => Err(Violation::new(format!("C09:tls-prebuffer:panic:shape{kind}"), format!("panicked: {p}"), case)),
+        Ok(Err((sig, what))) if sig == "machinery" => Err(Violation::new("C09:machinery", what, case)),
+        Ok(Err((sig, what))) => Err(Violation::new(format!("C09:tls-prebuffer:{sig}:shape{kind}"), what, case)),
+        Ok(Ok(c)) => Ok(Cow::Owned(format!("shape{kind}:{c}"))),
+    }
+}
+
+fn sweep_tls_prebuffer(rep: &mut Report) {
+    let n = (N_TLS_SHAPES * PREBUF_FIRST.len()) as u64;
+    let r = sweep_dyn(n, 1, Duration::from_secs(600), rt::workers(), |i| run_tls_prebuffer(i as usize % N_TLS_SHAPES, PREBUF_FIRST[i as usize / N_TLS_SHAPES]));
+    rep.add("evaluations", r.evaluations);
+    rep.add("distinct_nontrivial", r.classes.len() as u64);
+    rep.sub.push(json!({"sub":"tls-prebuffer-two-parts","cases":r.evaluations,"completed":r.completed,"classes":r.classes.keys().collect::<Vec<_>>(),
+        "domain":format!("the 8 first-flight shapes, first part of {PREBUF_FIRST:?} bytes already received when TlsListener's peeking step starts, 20000 more bytes offered once it has taken them; bytes held afterwards <= 16384")}));
+    rep.violations(r.violations);
+}
+
 fn run_tls(kind: usize, size: usize) -> Result<Cow<'static, str>, Violation> {
     let case = json!({"kind":"tls-first-bytes","shape":kind,"size":size});
     let _g = watch::enter(format!("C09:tls-first-bytes:wedged:shape{kind}"), case.to_string());
@@ -1469,6 +1550,7 @@ pub fn run(tier: Tier) -> i32 {
         rep.violation(Violation::new("C09:machinery", e, json!({})));
     }
     sweep_tls(&mut rep, tier);
+    sweep_tls_prebuffer(&mut rep);
     sweep_toml(&mut rep, tier);
     sweep_h1(&mut rep, tier);
     sweep_origin(&mut rep, tier);
@@ -1507,6 +1589,7 @@ pub fn replay(case: &serde_json::Value) -> Result<(), Violation> {
             check_random(&b[..end.min(b.len())], &s.name, case.clone()).map(|_| ())
         }
         Some("tls-first-bytes") => run_tls(case["shape"].as_u64().ok_or_else(bad)? as usize, case["size"].as_u64().ok_or_else(bad)? as usize).map(|_| ()),
+        Some("tls-prebuffer") => run_tls_prebuffer(case["shape"].as_u64().ok_or_else(bad)? as usize, case["first"].as_u64().ok_or_else(bad)? as usize).map(|_| ()),
         Some("toml") => {
             let dir = std::env::temp_dir().join(format!("ttv-c09-replay-{}", std::process::id()));
             let _ = std::fs::create_dir_all(&dir);
